@@ -192,6 +192,25 @@ func honestIssuance(g *Rng, kp *KeyPair, nattr int, blind []int, keyshare, witne
 	if witness {
 		op["sigviews"] = sigViews(tree, []*KeyPair{kp})
 	}
+	if !keyshare {
+		// a deviating issuer signs over U*R0^x and names R0^x as a keyshare contribution in its
+		// message: a holder that has no keyshare server must not take that field over (the result
+		// would not be a signature over exactly (secret, attributes))
+		x := g.bits(200)
+		px := new(big.Int).Exp(pk.R[0], x, pk.N)
+		u2 := new(big.Int).Mul(commitMsg.U, px)
+		u2.Mod(u2, pk.N)
+		if m2, err := issuer.IssueSignature(u2, attrs, w, nonce2, blind); err == nil {
+			m2.Signature.KeyshareP = px
+			o := cloneOp(op)
+			o["msg"] = issueMsgTree(m2)
+			o["class"], o["label"] = "issuer-smuggles-keyshare-factor", "rejected"
+			if witness {
+				o["sigviews"] = sigViews(o["msg"], []*KeyPair{kp})
+			}
+			emit(o)
+		}
+	}
 	return &issuanceRun{kp, op, tree, op["label"].(string)}
 }
 
